@@ -5,6 +5,7 @@ import vlib
 import proc
 import world
 import worldscen as ws
+import cmdstatus
 
 R = '@R@'
 CONF = ('maildir "%(R)s/src" {\n'
@@ -277,6 +278,9 @@ def run(rep):
     vlib.lean_gate(rep, 'C04', sc, [
         'the populations are judged on the real binary; "unreadable file" is exercised as an injected openat/read failure (C01 sweep), '
         'because the checks run as root',
+        'command errors: the exec helper run through a link named cmd-exit-N / cmd-signal-N ends that way; in the unit harness a program '
+        'named vstatus:... is not looked up by execvp(3), the child of the real exec() ends as the name says',
+        cmdstatus.SIGNAL_NOTE,
     ])
     npop = 40 if rep.tier == 'quick' else 1500
     fixed = fixed_populations(random.Random(rep.seed + 1))
@@ -289,6 +293,10 @@ def run(rep):
     with cf.ThreadPoolExecutor(vlib.NCPU) as ex:
         for r in ex.map(lambda s: stdin_sweep(tools, W, s, rep.tier), stdin_specs):
             sres.extend(r)
+    # command errors: every way a program run by a `command` condition or an `exec` action can end or fail to start
+    # (tools/cmdstatus.py: exit status, isolation and the documented meaning of each outcome on the real binary; the real evaluator
+    # in-process against Model.eval on the same outcomes)
+    status_cov = cmdstatus.stage(rep, sc, tools, W, random.Random(rep.seed + 3))
     corr_bad = []
     for r in results:
         if r['problems']:
@@ -302,6 +310,9 @@ def run(rep):
     if corr_bad and not rep.violations:
         rep.violation({'obligation': 'correspondence: a run over a population with defective messages does not follow Model.mainP',
                        'disagreements': len(corr_bad), 'examples': corr_bad[:6]}, False)
+    # ---- rule-shape family: the failing condition after a pass, in nested / break-ed blocks, in and/or/!, around attachment blocks ----
+    import c04shapes
+    rep.coverage['rule_shapes'] = c04shapes.stage(rep, tools, W)
     vlib.lean_conclude(rep)
     kinds = {}
     for r in results:
@@ -324,12 +335,21 @@ def run(rep):
         'samples': results[:2] + sres[:2],
         'kinds_exercised': kinds,
         'correspondence_mismatches': len(corr_bad),
+        'command_status_family': status_cov,
     })
 
 
 def replay(rep, path):
     import json
-    print(json.dumps(json.load(open(path)), indent=1)[:3000])
+    j = json.load(open(path))
+    print(json.dumps(j, indent=1)[:3000])
     sc = vlib.Scratch()
     vlib.lean_gate(rep, 'C04', sc, [])
+    if j.get('family') == 'rule-shape':
+        import c04shapes
+        tools = proc.Tools(sc)
+        c04shapes.replay(rep, tools, world.WorldCheck(sc, tools), j)
+    if j.get('stage') == 'cmdstatus':
+        tools = proc.Tools(sc)
+        cmdstatus.replay_process(tools, world.WorldCheck(sc, tools), j)
     rep.coverage.update({'evaluations': 1, 'distinct_nontrivial': 1})
